@@ -405,6 +405,18 @@ def gen_label(rng):
 
 def gen_name(rng, shared=None, maxlabels=5):
     """names with heavy suffix sharing: most names extend one of the `shared` suffixes"""
+    if shared and rng.chance(1, 10):
+        # the same bytes under another division into labels: two neighbouring labels of a name already in use merged into one
+        # around a separator byte (NUL, '.', the length octet the wire form would have there, space), in front of the same tail.
+        # Whatever a compression table or a store keys names by, these are different names.
+        cands = [n for n in shared if len(n) >= 2 and len(n[0]) + len(n[1]) + 1 <= 63]
+        if cands:
+            base = list(rng.choice(cands))
+            sep = rng.choice([b"\x00", b".", bytes([len(base[1])]), b" ", b""])
+            name = [gen_label(rng) for _ in range(rng.below(2))] + [base[0] + sep + base[1]] + base[2:]
+            while sum(len(l) + 1 for l in name) + 1 > 255:
+                name = name[1:]
+            return name
     if shared and rng.chance(3, 4):
         base = list(rng.choice(shared))
         extra = [gen_label(rng) for _ in range(rng.below(3))]
